@@ -419,6 +419,10 @@ def validate(seq, _depth=0):
 # ---------------------------------------------------------------------------
 NAME = st.text("abcxyzfgXN_", min_size=1, max_size=3).filter(lambda s: any(c.isalpha() for c in s))
 VARNAME = st.text("abcxyzvn_XQ", min_size=0, max_size=3)
+# function names are sanitised only in the transpiler: also code-page characters that Unicode counts as
+# alphanumeric but Python identifiers do not allow, digits, and other one-character elements
+FNAME = st.one_of(NAME, st.tuples(NAME, st.text("²¹⁰₀₁₈½¼¾⅛É9+", min_size=1, max_size=2)).map(lambda t: t[0][:2] + t[1]),
+                  st.tuples(st.sampled_from("²½₁⅛"), NAME).map(lambda t: t[0] + t[1][:2]))
 CPCHAR = st.sampled_from(CP)
 HOT = st.sampled_from(SYNTAX_SIGNIFICANT + ["`", "\\", "«", "»", '"', "\n", "#", "‛", "⁺", " ", "→", "k", "0", "."])
 
@@ -473,8 +477,8 @@ def _structures(sub_seq, sub_node):
         branch.map(lambda b: ["map", b]),
         branch.map(lambda b: ["flt", b]),
         branch.map(lambda b: ["srt", b]),
-        st.tuples(NAME, st.lists(PARAM, max_size=3), branch).map(lambda t: ["def", t[0], t[1], t[2]]),
-        NAME.map(lambda nm: ["call", nm]),
+        st.tuples(FNAME, st.lists(PARAM, max_size=3), branch).map(lambda t: ["def", t[0], t[1], t[2]]),
+        FNAME.map(lambda nm: ["call", nm]),
         st.lists(branch, min_size=1, max_size=4).map(lambda bs: ["list", bs]),
         st.sampled_from(list(MOD_ARITY)).flatmap(
             lambda m: st.lists(sub_node, min_size=MOD_ARITY[m], max_size=MOD_ARITY[m]).map(lambda ops: ["mod", m, ops])),
